@@ -170,6 +170,10 @@ class Canon(ast.NodeTransformer):
                         else:
                             src.append(ast.copy_location(ast.FormattedValue(value=p_, conversion=-1, format_spec=None), v))
                     continue
+            # {f'...'}: a nested f-string is part of the text
+            if isinstance(v, ast.FormattedValue) and v.conversion == -1 and v.format_spec is None and isinstance(v.value, ast.JoinedStr):
+                src.extend(v.value.values)
+                continue
             src.append(v)
         for v in src:
             if isinstance(v, ast.FormattedValue) and isinstance(v.value, ast.Constant) and isinstance(v.value.value, str) and v.conversion == -1 and v.format_spec is None:
@@ -422,13 +426,26 @@ def _fuse_nested(node):
         inner = g.iter
         if isinstance(inner, ast.Call) and isinstance(inner.func, ast.Name) and inner.func.id in ('list', 'tuple', 'iter') and len(inner.args) == 1 and not inner.keywords:
             inner = inner.args[0]
-        if not isinstance(inner, (ast.GeneratorExp, ast.ListComp)) or len(inner.generators) != 1 or not isinstance(inner.generators[0].target, ast.Name) \
-                or not isinstance(inner.elt, ast.Name) or inner.elt.id != inner.generators[0].target.id:
+        if not isinstance(inner, (ast.GeneratorExp, ast.ListComp)) or len(inner.generators) != 1 or not isinstance(inner.generators[0].target, ast.Name):
             break
         ig = inner.generators[0]
-        ren = _Subst({ig.target.id: ast.Name(id=g.target.id, ctx=ast.Load())})
-        g.ifs = [ren.visit(copy.deepcopy(c)) for c in ig.ifs] + g.ifs
-        g.iter = ig.iter
+        if isinstance(inner.elt, ast.Name) and inner.elt.id == ig.target.id:
+            ren = _Subst({ig.target.id: ast.Name(id=g.target.id, ctx=ast.Load())})
+            g.ifs = [ren.visit(copy.deepcopy(c)) for c in ig.ifs] + g.ifs
+            g.iter = ig.iter
+            continue
+        # (E(x) for x in (y.a.b for y in S if P(y)))  ->  (E(y.a.b) for y in S if P(y)): the inner element is a plain attribute path of the inner variable
+        if _attr_path(inner.elt) and _attr_path(inner.elt).split('.')[0] == ig.target.id and isinstance(inner, ast.GeneratorExp) \
+                and not any(isinstance(x, ast.Name) and x.id == ig.target.id for part in [node.elt] + g.ifs for x in ast.walk(part)):
+            sub = _Subst({g.target.id: inner.elt})
+            if isinstance(node, ast.DictComp):
+                break
+            node.elt = sub.visit(node.elt)
+            g.ifs = list(ig.ifs) + [sub.visit(c) for c in g.ifs]
+            g.target = ig.target
+            g.iter = ig.iter
+            continue
+        break
     return node
 
 
@@ -949,6 +966,31 @@ class Desugar(ast.NodeTransformer):
             node = _FormatToFString(const_locals).visit(node)       # `partial(TEMPLATE.format, a)(b)` has become `TEMPLATE.format(a, b)`
             ast.fix_missing_locations(node)
             self.loads = Counter(x.id for x in ast.walk(node) if isinstance(x, ast.Name) and isinstance(x.ctx, ast.Load))
+        # D10d: G = (E for y in IT) ; ... (F(x) for x in G)     (G bound once, read once, as the iterable of a comprehension)   ->   read in place and fused
+        glocals = {}
+        for x in node.body:
+            if isinstance(x, ast.Assign) and len(x.targets) == 1 and isinstance(x.targets[0], ast.Name) and isinstance(x.value, ast.GeneratorExp) \
+                    and self.stores.get(x.targets[0].id) == 1 and self.loads.get(x.targets[0].id) == 1:
+                glocals[x.targets[0].id] = x
+        if glocals:
+            used = set()
+
+            class _G(ast.NodeTransformer):
+                def _comp(self_, c):
+                    self_.generic_visit(c)
+                    g0 = c.generators[0]
+                    if len(c.generators) == 1 and isinstance(g0.iter, ast.Name) and g0.iter.id in glocals and g0.iter.id not in used:
+                        used.add(g0.iter.id)
+                        g0.iter = glocals[g0.iter.id].value
+                        return _fuse_nested(c)
+                    return c
+                visit_GeneratorExp = visit_ListComp = visit_SetComp = _comp
+            node = _G().visit(node)
+            if used:
+                node.body = [b for b in node.body if not (isinstance(b, ast.Assign) and b is glocals.get(getattr(b.targets[0], 'id', None)) and b.targets[0].id in used)]
+                ast.fix_missing_locations(node)
+                self.loads = Counter(x.id for x in ast.walk(node) if isinstance(x, ast.Name) and isinstance(x.ctx, ast.Load))
+                self.stores = Counter(x.id for x in ast.walk(node) if isinstance(x, ast.Name) and isinstance(x.ctx, ast.Store))
         # D9: joins over displays (directly or through a local bound once)
         local_displays = {}
         for x in ast.walk(node):
